@@ -426,8 +426,31 @@ def pathsSize : List Path → Nat
   | p :: ps => pathSize p + pathsSize ps
 end
 
-/-- fuel: every call decrements it; chains are bounded by (#positions + 2) per step and nesting -/
-def selFuel (root : Bytes) (jp : JsonPath) : Nat := (root.length + 4) * (pathsSize jp + 2) + 16
+mutual
+/-- total number of index / slice entries anywhere in a path -/
+def pathIdx : Path → Nat
+  | .arrayIndices is => is.length
+  | .arithmeticExpr e | .filterExpr e | .predicate e => exprIdx e
+  | _ => 0
+def exprIdx : Expr → Nat
+  | .paths ps => pathsIdx ps
+  | .value _ => 0
+  | .binaryOp _ l r => exprIdx l + exprIdx r
+  | .arithUnary _ e => exprIdx e
+  | .arithBinary _ l r => exprIdx l + exprIdx r
+  | .existsFn ps => pathsIdx ps
+def pathsIdx : List Path → Nat
+  | [] => 0
+  | p :: ps => pathIdx p + pathsIdx ps
+end
+
+/-- fuel: every call decrements it (one unit per position in `filterAll`).  A step multiplies the
+number of positions by at most (children of a container) × (index entries of the step): repeated
+indices such as `[0,0,0]` grow the frontier beyond the size of the document.  The model keeps
+any non-fuel answer under more fuel (`model_mono`) and some fuel always suffices
+(`findPositions_terminates`), so a generous bound is sound. -/
+def selFuel (root : Bytes) (jp : JsonPath) : Nat :=
+  ((root.length + 4) * (pathsIdx jp + 2)) ^ (pathsSize jp + 2) + 16
 
 /-- `Selector::select(root, data, offsets)` -/
 def select (jp : JsonPath) (mode : Mode) (root data : Bytes) (offs : List Nat) (fuel : Nat) : Res (Bytes × List Nat) :=
